@@ -77,6 +77,12 @@ struct Session {
     state: Obj,
     pw: Vec<u8>,
     genuine: Vec<Vec<u8>>,
+    /// server side of the first genuine answer: pending state and its matching finalization
+    server_state: Obj,
+    fake_state: Obj,
+    fin: Vec<u8>,
+    setup: Obj,
+    record: Obj,
 }
 
 fn session(i: usize) -> &'static Session {
@@ -94,13 +100,25 @@ fn session(i: usize) -> &'static Session {
                     .expect("HARNESS-BUG: fixture registration");
                 let (req, state) = s.client_login_start(&mut t(3).rng(), &pw).expect("HARNESS-BUG: fixture login start");
                 let mut genuine = Vec::new();
+                let mut first = None;
                 for k in 0..2 {
-                    let (resp, _) = s
+                    let (resp, sst) = s
                         .server_login_start(&mut t(4 + k).rng(), &setup, Some(&reg.record), &req, b"cred", None, Ids::default())
                         .expect("HARNESS-BUG: fixture server start");
                     genuine.push(s.ser(Codec::Native, &resp));
+                    if first.is_none() {
+                        first = Some((resp, sst));
+                    }
                 }
-                Session { state, pw, genuine }
+                let (resp0, server_state) = first.unwrap();
+                let lf = s
+                    .client_login_finish(s.clone_obj(&state), &pw, &resp0, None, Ids::default(), None)
+                    .expect("HARNESS-BUG: fixture client finish");
+                let fin = s.ser(Codec::Native, &lf.fin);
+                let (_, fake_state) = s
+                    .server_login_start(&mut t(9).rng(), &setup, None, &req, b"cred", None, Ids::default())
+                    .expect("HARNESS-BUG: fixture fake start");
+                Session { state, pw, genuine, server_state, fake_state, fin, setup, record: reg.record }
             })
             .collect()
     })[i]
@@ -151,10 +169,118 @@ pub fn login_response_target(data: &[u8]) -> Result<(), String> {
     }
 }
 
+/// `data = [suite, kind, payload...]`: payload is offered as finalization to a fixed pending
+/// server state (kind even: real record; odd: fake record).  Oracle: a key is returned
+/// only for the genuine finalization of the real state (C03); no panic.
+pub fn server_finish_target(data: &[u8]) -> Result<(), String> {
+    if data.len() < 2 {
+        return Ok(());
+    }
+    let ss = suites();
+    let i = data[0] as usize % ss.len();
+    let s = ss[i];
+    let sess = session(i);
+    let fake = data[1] & 1 == 1;
+    let Ok(fin) = s.de(Codec::Native, Ty::CredFin, &data[2..]) else {
+        return Ok(());
+    };
+    let st = if fake { &sess.fake_state } else { &sess.server_state };
+    match s.server_login_finish(s.clone_obj(st), &fin) {
+        Err(_) => Ok(()),
+        Ok(_) if !fake && data[2..] == sess.fin[..] => Ok(()),
+        Ok(_) => Err(format!(
+            "C03 suite {}: server ({} record) completed on a finalization that is not the matching one: {}",
+            s.meta().name,
+            if fake { "fake" } else { "real" },
+            hex::encode(&data[2..])
+        )),
+    }
+}
+
+pub fn server_finish_seeds() -> Vec<Vec<u8>> {
+    let mut v = Vec::new();
+    for i in 0..suites().len() {
+        for k in 0..2u8 {
+            let mut d = vec![i as u8, k];
+            d.extend_from_slice(&session(i).fin);
+            v.push(d);
+        }
+    }
+    v
+}
+
+/// `data = [suite, flags, cred_len, cred..., payload...]`: payload is offered as credential
+/// request to ServerLogin::start (flags bit0: with record; bit1: explicit identities; bit2:
+/// context).  Oracle: no panic (C12); an Ok response has the fixed length, decodes, and the
+/// pending state has the fixed length (C08's "same length and structure", C10).
+pub fn server_start_target(data: &[u8]) -> Result<(), String> {
+    if data.len() < 3 {
+        return Ok(());
+    }
+    ksf::set_default_spec(KsfSpec::Identity);
+    let ss = suites();
+    let i = data[0] as usize % ss.len();
+    let s = ss[i];
+    let m = s.meta();
+    let sess = session(i);
+    let flags = data[1];
+    let cl = (data[2] as usize).min(data.len() - 3);
+    let cred = &data[3..3 + cl];
+    let payload = &data[3 + cl..];
+    let Ok(req) = s.de(Codec::Native, Ty::CredReq, payload) else {
+        return Ok(());
+    };
+    let ids = if flags & 2 != 0 {
+        Ids {
+            client: Some(b"fuzz-client"),
+            server: Some(b"fuzz-server"),
+        }
+    } else {
+        Ids::default()
+    };
+    let ctx: Option<&[u8]> = if flags & 4 != 0 { Some(b"fuzz-context") } else { None };
+    let rec = if flags & 1 != 0 { Some(&sess.record) } else { None };
+    let mut rng = TapeSpec::from_u64(0xABCD).rng();
+    match s.server_login_start(&mut rng, &sess.setup, rec, &req, cred, ctx, ids) {
+        Err(_) => Ok(()),
+        Ok((resp, st)) => {
+            let rb = s.ser(Codec::Native, &resp);
+            if rb.len() != m.len_of(Ty::CredResp) || s.de(Codec::Native, Ty::CredResp, &rb).is_err() {
+                return Err(format!("C08 suite {}: ServerLogin::start produced a malformed response", m.name));
+            }
+            if s.ser(Codec::Native, &st).len() != m.len_of(Ty::ServerLogin) {
+                return Err(format!("C10 suite {}: pending state has the wrong length", m.name));
+            }
+            Ok(())
+        }
+    }
+}
+
+pub fn server_start_seeds() -> Vec<Vec<u8>> {
+    let ss = suites();
+    let mut v = Vec::new();
+    for (i, s) in ss.iter().enumerate() {
+        let (req, _) = s
+            .client_login_start(&mut TapeSpec::from_u64(0xBEEF + i as u64).rng(), b"pw")
+            .expect("HARNESS-BUG: seed request");
+        for flags in [0u8, 1, 7] {
+            let mut d = vec![i as u8, flags, 4];
+            d.extend_from_slice(b"cred");
+            d.extend_from_slice(&s.ser(Codec::Native, &req));
+            v.push(d);
+        }
+    }
+    v
+}
+
+pub const TARGETS: [&str; 4] = ["decoders", "login_response", "server_finish", "server_start"];
+
 pub fn run_target(target: &str, data: &[u8]) -> Result<(), String> {
     match target {
         "decoders" => decoders_target(data),
         "login_response" => login_response_target(data),
+        "server_finish" => server_finish_target(data),
+        "server_start" => server_start_target(data),
         other => Err(format!("HARNESS-BUG: unknown fuzz target {other}")),
     }
 }
